@@ -6,7 +6,7 @@
    [_cell_idxs_touched_by_trajectory_with_state_and_integrated_vars], plus the antimeridian
    split of [_grid_trajectory_with_dateline_crossing].
 
-   Three boolean switches select the behaviour of the tree under check (the harness detects them
+   Four boolean switches select the behaviour of the tree under check (the harness detects them
    on the real code on every run):
      clamp  (F20)   : false = as coded, [searchsorted - 1] may be -1 and wraps to the last grid value;
                       true  = repaired, the index is clamped at 0.
@@ -14,6 +14,8 @@
                       true  = repaired, its value is shared equally among its pieces.
      fixdl  (FC05a) : false = as coded, the antimeridian is met at the start point's latitude;
                       true  = repaired, at the latitude of the straight map line.
+     fixz   (FC04a) : false = as coded, a zero-length crossing segment splits its value by 0/0;
+                      true  = repaired, the first part keeps the value.
    Geodesic lengths are external (pyproj): they enter through the function argument [dist]. *)
 From Coq Require Import ZArith List Bool PrimFloat.
 From AV Require Import lib.Num.
@@ -181,7 +183,8 @@ Section M.
     if fixdl then
       let lon_cross := if (sg =? -1)%Z then pi else - pi in
       let lon_end := if (sg =? -1)%Z then lon1 + two * pi else lon1 - two * pi in
-      lat0 + (lon_cross - lon0) / (lon_end - lon0) * (lat1 - lat0)
+      if lon_end =? lon0 then lat0            (* both end points on the antimeridian *)
+      else lat0 + (lon_cross - lon0) / (lon_end - lon0) * (lat1 - lat0)
     else lat0.
 
   Definition exit_lon (sg : Z) : T := if (sg =? -1)%Z then pi else - pi.
@@ -191,11 +194,15 @@ Section M.
   Definition first_part {A : Type} (l : list A) (i : nat) (x : A) : list A := firstn (S i) l ++ [x].
   Definition second_part {A : Type} (l : list A) (i : nat) (x : A) : list A := x :: skipn (S i) l.
 
-  (* per-segment (integrated) list *)
-  Definition first_vals (var : list T) (i : nat) (len1 total : T) : list T :=
-    firstn i var ++ [nth i var zero * len1 / total].
-  Definition second_vals (var : list T) (i : nat) (len2 total : T) : list T :=
-    (nth i var zero * len2 / total) :: skipn (S i) var.
+  (* per-segment (integrated) list.  The crossing segment's value is split in proportion to the two part
+     lengths; [fixz] (FC04a): false = as coded, a crossing segment of total length 0 (the same point given
+     as -pi and as +pi) divides 0 by 0; true = repaired, the first part keeps the value. *)
+  Definition split_val (fixz first : bool) (v len total : T) : T :=
+    if fixz && (total =? zero) then (if first then v else zero) else v * len / total.
+  Definition first_vals (fixz : bool) (var : list T) (i : nat) (len1 total : T) : list T :=
+    firstn i var ++ [split_val fixz true (nth i var zero) len1 total].
+  Definition second_vals (fixz : bool) (var : list T) (i : nat) (len2 total : T) : list T :=
+    split_val fixz false (nth i var zero) len2 total :: skipn (S i) var.
 
   (* ---------- whole call: Gridder.grid_trajectory ---------- *)
 
@@ -246,7 +253,7 @@ Section M.
     end.
 
   (* values phase: [dds] = for each part, per segment (segment length, piece lengths) *)
-  Definition values (fix3 : bool) (status : Z) (i : nat) (vars : list (list T))
+  Definition values (fix3 fixz : bool) (status : Z) (i : nat) (vars : list (list T))
              (dds : list (list (T * list T))) : list (list T) :=
     match status, dds with
     | 0%Z, [dd] => map (fun var => part_values fix3 var dd) vars
@@ -254,16 +261,16 @@ Section M.
         let len1 := fst (last dd1 (zero, [])) in
         let len2 := fst (hd (zero, []) dd2) in
         let total := len1 + len2 in
-        map (fun var => part_values fix3 (first_vals var i len1 total) dd1
-                        ++ part_values fix3 (second_vals var i len2 total) dd2) vars
+        map (fun var => part_values fix3 (first_vals fixz var i len1 total) dd1
+                        ++ part_values fix3 (second_vals fixz var i len2 total) dd2) vars
     | _, _ => map (fun _ => []) vars
     end.
 
   (* the composition the theorems speak about: lengths supplied by [dist] *)
-  Definition grid_integrated (dist : point -> point -> T) (clamp fix3 fixdl : bool)
+  Definition grid_integrated (dist : point -> point -> T) (clamp fix3 fixdl fixz : bool)
              (glat glon : list T) (pts : list point) (vars : list (list T)) : list (list T) :=
     let '(status, i, parts) := geometry clamp fixdl glat glon [] [] pts None None [] in
-    values fix3 status i vars
+    values fix3 fixz status i vars
            (map (fun p : part_result => attach_dists dist (snd p)) parts).
 
   (* cell coordinates reported to the caller: grid[index] with Python indexing *)
